@@ -485,7 +485,7 @@ type wspec struct {
 	ns    string // "default", "other", "*" (wildcard tenancy)
 	// prefix: name prefix of the listing ("" = all names)
 	prefix string
-	when  int    // created by this thread as its only step
+	when   int // created by this thread as its only step
 }
 
 type wscenario struct {
